@@ -49,7 +49,8 @@ pub const POOL_KATAKANA: &[char] = &['ア', 'イ', 'ー', 'ｱ', 'ﾟ', 'ヴ'];
 pub const POOL_KANJI: &[char] = &['人', '地', '球', '火', '𠮷', '𪜈', '㐀', '豈'];
 pub const POOL_OTHER: &[char] = &[
     ' ', '/', '\\', '-', '|', '。', 'é', 'π', '€', '\r', '\n', '\u{200d}', '👨', '👩', '🇯', '🇵',
-    '\u{3099}', '\u{0301}', '.', ',', '(', '｢', '～', '\t', '\u{7f}', '\u{10ffff}', '"', '\'',
+    '\u{3099}', '\u{0301}', '.', ',', '(', '｢', '～', '\t', '\u{7f}', '\u{10ffff}', '"', '\'', '\u{b}', '\u{c}', '\u{85}', '\u{2028}', '\u{2029}', '\u{3000}',
+    '\u{a0}', '\u{1c}', '\u{1}',
 ];
 /// Characters that are harmless in every text format (no delimiter, no escape, no line break).
 pub const POOL_PLAIN_OTHER: &[char] = &['。', 'é', 'π', '€', '👨', '\u{3099}', '.', ',', '～', '"'];
@@ -87,6 +88,28 @@ pub fn alphabet(rng: &mut Rng, size: usize, flavor: Flavor) -> Vec<char> {
         if flavor == Flavor::Line && (c == '\r' || c == '\n') {
             continue;
         }
+        if !out.contains(&c) {
+            out.push(c);
+        }
+    }
+    out
+}
+
+/// Alphabet biased towards keys of the normaliser table (ASCII keys, and the 3-byte keys whose
+/// image has the same UTF-8 width or another character type), mixed with kana / kanji.
+pub fn alphabet_norm_heavy(rng: &mut Rng, size: usize, ascii_keys: bool) -> Vec<char> {
+    const SAME_WIDTH_KEYS: &[char] = &['｢', '｣', '～', '－', '､', '―', '･', '─', '–', '｡'];
+    const ASCII_KEYS: &[char] = &['a', 'Z', '0', '9', '(', '-', '.', '/', ',', '%', '?', '"', '\'', '+', ':', '!', '&', '*', '@', '=', '_', '<', '['];
+    const PLAIN: &[char] = &['ア', 'コ', 'ヒ', 'ー', 'あ', 'の', '人', '火', '。', '・', 'ｱ', '７'];
+    let mut out: Vec<char> = vec![];
+    let mut guard = 0;
+    while out.len() < size && guard < 1000 {
+        guard += 1;
+        let c = match rng.below(3) {
+            0 => *rng.pick(SAME_WIDTH_KEYS),
+            1 if ascii_keys => *rng.pick(ASCII_KEYS),
+            _ => *rng.pick(PLAIN),
+        };
         if !out.contains(&c) {
             out.push(c);
         }
